@@ -279,6 +279,11 @@ pub fn reference(sc: &HScenario, recorded: &[Tr], facts: &RunFacts) -> (Vec<Tr>,
 
     // on_start runs before anything else.
     let mut fatal = r.run_handler(H::Start, Args::None).is_err();
+    // The completion handler of a dynamic lane requested in on_init runs after on_start (on_start is the first
+    // handler to run), before the agent handles anything else.
+    if !fatal && sc.dyn_on_init {
+        r.out.push(Tr::Mark(super::model::DYN_LANE_MARK));
+    }
     if !fatal {
         for trig in order {
             r.trigger += 1;
@@ -664,6 +669,10 @@ pub fn check_structure(recorded: &[Tr], facts: &RunFacts) -> Vec<Violation> {
         }
         Flow::End => incomplete = true,
         Flow::Bad => return c.viol,
+    }
+    if !incomplete && !after_abort && !stopping && c.t.get(c.pos) == Some(&Tr::Mark(super::model::DYN_LANE_MARK)) {
+        // Completion of a dynamic lane requested in on_init: right after on_start.
+        c.pos += 1;
     }
     while !incomplete {
         let Some(e) = c.t.get(c.pos).cloned() else { break };
